@@ -521,3 +521,8 @@ M('r3-c10-outputs-keep-connectors', 'C10', CIRC, "            [output for output
 M('r3-c13-final-and', 'C13', MIT, "        miter.emplace_gate(OR_NAME, gate.OR, xor_outputs)", "        miter.emplace_gate(OR_NAME, gate.AND, xor_outputs)", 'C13.')
 M('r3-c13-right-inputs-reversed', 'C13', MIT, "        miter.get_block(left_name).inputs,\n        right.inputs,", "        miter.get_block(left_name).inputs,\n        list(reversed(right.inputs)),", 'C13.')
 M('r3-c13-twin-locals', 'C13', MIT, "    pairwise_xor = generate_pairwise_xor(left.output_size)\n", "    n_outputs = left.output_size\n    pairwise_xor = generate_pairwise_xor(n_outputs)\n", None)
+
+# C17.SHIP: the numbering of the on-disk format must stay the one the shipped files were written with
+M('c17-ship-renumber-and-or', 'C17', ENCF, "    gate.AND: 1,\n    gate.OR: 2,", "    gate.OR: 1,\n    gate.AND: 2,", 'C17.SHIP')
+M('c17-ship-renumber-xor', 'C17', ENCF, "    gate.XOR: 5,\n    gate.NXOR: 6,", "    gate.NXOR: 5,\n    gate.XOR: 6,", 'C17.SHIP')
+M('c17-ship-key-width', 'C17', 'cirbo/circuits_db/binary_dict_io.py', "DICT_KEY_BYTE_SIZE = 2", "DICT_KEY_BYTE_SIZE = 4", 'C17.SHIP')
